@@ -37,7 +37,9 @@ func dig(b []byte) string { s := sha256.Sum256(b); return hex.EncodeToString(s[:
 // lets `goroutines` goroutines execute `perG` random operations each, concurrently.
 func Run(seed int64, goroutines, perG int, buggyShared bool) []Event {
 	rng := rand.New(rand.NewSource(seed))
-	rb := func(n int) []byte { b := make([]byte, n); rng.Read(b); return b }
+	// every buffer handed to the library is a prefix of a larger one: the bytes behind it (within its capacity) belong to the
+	// caller as well, e.g. the signature that follows a message in one packet
+	rb := func(n int) []byte { b := make([]byte, n+24); rng.Read(b); return b[:n] }
 	shared := crypto.NewExpandMsgXOFKMAC128("verif-c19")
 	kmacKey := rb(32)
 	kmac, _ := hash.NewKMAC_128(kmacKey, []byte("cust"), 64)
@@ -265,7 +267,7 @@ func Run(seed int64, goroutines, perG int, buggyShared bool) []Event {
 	call := func(gid int, o op, own hash.Hasher) {
 		before := make([][]byte, len(o.args))
 		for i, a := range o.args {
-			before[i] = append([]byte(nil), a...)
+			before[i] = append([]byte(nil), a[:cap(a)]...)
 		}
 		h := hash.Hasher(shared)
 		if o.own {
@@ -274,7 +276,7 @@ func Run(seed int64, goroutines, perG int, buggyShared bool) []Event {
 		res := o.run(h)
 		same := true
 		for i, a := range o.args {
-			same = same && bytes.Equal(before[i], a)
+			same = same && bytes.Equal(before[i], a[:cap(a)])
 		}
 		logs[gid] = append(logs[gid], Event{E: "conc", Key: o.key, Result: res, ArgsUnchanged: same, G: gid})
 	}
